@@ -399,19 +399,21 @@ var boolFlags = []string{"update-gatewayclass-status", "metrics-disable", "metri
 func genStatic(r *rng.R, n int) []tcase {
 	var c []tcase
 	resName := func() string {
-		if r.Chance(1, 6) {
+		if r.Chance(1, 14) {
 			return mutate(r, genDNS(r))
 		}
 		return genDNS(r)
 	}
 	opt := func() string {
-		switch r.Intn(8) {
+		switch r.Intn(12) {
 		case 0:
 			return mutate(r, genEndpoint(r))
 		case 1:
 			return genEndpoint(r)
 		case 2:
 			return genV4(r)
+		case 3:
+			return "[" + genV6(r) + "]:" + strconv.Itoa(r.Range(1, 65535))
 		}
 		h := genDNS(r)
 		if r.Bool() {
@@ -423,7 +425,7 @@ func genStatic(r *rng.R, n int) []tcase {
 		var args []string
 		add := func(name, val string) { args = append(args, name+"="+val) }
 		if !r.Chance(1, 25) {
-			if r.Chance(1, 10) {
+			if r.Chance(1, 16) {
 				add("gateway-ctlr-name", mutate(r, genCtlr(r)))
 			} else {
 				add("gateway-ctlr-name", "gateway.nginx.org/"+genLabel(r, 20))
@@ -434,11 +436,11 @@ func genStatic(r *rng.R, n int) []tcase {
 		}
 		mp, hp := "", ""
 		portVal := func() string {
-			switch r.Intn(10) {
+			switch r.Intn(16) {
 			case 0:
 				return genPort(r)
-			case 1:
-				return rng.Pick(r, []string{"1023", "1024", "65535", "65536", "8081", "9113", "+9000", "09000"})
+			case 1, 2:
+				return rng.Pick(r, []string{"1023", "1024", "65535", "65536", "8081", "9113", "+9000", "09000", "32768"})
 			}
 			return strconv.Itoa(r.Range(8998, 9002))
 		}
